@@ -19,15 +19,15 @@ LEVEL_TEXT = ('every configuration of the lattice is materialised and the real t
 LEVEL_NOTE = ('trusted: R2 (60 lines, from the spec text), the shim mount rules (bound to real tmpfs mounts by selftest T2); '
               'permission-based unusability (non-root) is not modelled')
 RULE = ('mounts (5) x .Trash (absent, sticky dir, non-sticky dir, symlink->sticky dir, regular file) x .Trash/uid (absent, present) x '
-        '.Trash-uid (absent, dir, file) x file location (home vol, other vol, nested vol, via cross-volume symlinked parent, '
+        '.Trash-uid (absent, dir, file, symlink to a dir, dangling symlink) x file location (home vol, other vol, nested vol, via cross-volume symlinked parent, '
         'symlink-to-other-volume-dir spelled with trailing slash) x env (XDG set, unset, empty, HOME unset, both unset, $HOME/.local a link to another volume, XDG_DATA_HOME below such a link) x option '
         '(-, --trash-dir same vol, other vol, symlinked to other vol, below a linked parent) x fallback (off, flag, env, both) x uid (0,1000); quick tier = '
-        'sub-lattice (uid 0, 3 mount layouts, 3 options, fallback off/both); non-trivial = a candidate was examined; distinct = '
+        'sub-lattice (uid 0, 3 mount layouts, 4 options, fallback off/both/flag+env=0, 5 environments, 3 .Trash-uid states); non-trivial = a candidate was examined; distinct = '
         'R2 verdict class x outcome class x location x env x option x fallback')
 MOUNTS = {'root-only': ['/'], 'v1': ['/', '/mnt/v1'], 'home': ['/', '/home'],
           'home+v1+v2': ['/', '/home', '/mnt/v1', '/mnt/v2'], 'nested': ['/', '/mnt/v1', '/mnt/v1/inner']}
 TOPS = ['absent', 'sticky', 'nonsticky', 'symlink', 'file']
-ALTS = ['absent', 'dir', 'file']
+ALTS = ['absent', 'dir', 'file', 'link-dir', 'dangling']
 LOCS = ['home', 'other', 'nested', 'via-symlink', 'linkdir-slash']
 ENVS = ['xdg', 'unset', 'empty', 'nohome', 'none', 'local-link', 'xdg-under-link']
 OPTS = ['-', 'td-same', 'td-other', 'td-symlink', 'td-under-link']
@@ -36,7 +36,7 @@ FBS = ['off', 'flag', 'env', 'both', 'flag+env0', 'flag+envyes']
 
 def dimensions(tier):
     q = tier != 'thorough'
-    return {'mounts': 3 if q else 5, 'top': 5, 'top_uid': 2, 'alt': 3, 'location': 5, 'env': 7,
+    return {'mounts': 3 if q else 5, 'top': 5, 'top_uid': 2, 'alt': 3 if q else 5, 'location': 5, 'env': 5 if q else 7,
             'option': 4 if q else 5, 'fallback': 3 if q else 6, 'uid': 1 if q else 2}
 
 
@@ -47,9 +47,9 @@ def cases(tier):
         for m in (['v1', 'home', 'nested'] if q else list(MOUNTS)):
             for fb in (['off', 'both', 'flag+env0'] if q else FBS):
                 for o in (['-', 'td-same', 'td-other', 'td-under-link'] if q else OPTS):
-                    for e in ENVS:
+                    for e in ([x for x in ENVS if x not in ('nohome', 'none')] if q else ENVS):
                         for loc in LOCS:
-                            for alt in ALTS:
+                            for alt in (['absent', 'file', 'dangling'] if q else ALTS):
                                 for tu in (0, 1):
                                     for top in TOPS:
                                         if tu and top in ('absent', 'file'):
@@ -92,6 +92,10 @@ def run_case(c):
             W.dir(mm + '/.Trash-%d' % uid, mode=0o700)
         elif c['alt'] == 'file':
             W.file(mm + '/.Trash-%d' % uid, 'x')
+        elif c['alt'] == 'link-dir':
+            W.dir(mm + '/.alt-real', mode=0o700).link(mm + '/.Trash-%d' % uid, '.alt-real')
+        elif c['alt'] == 'dangling':
+            W.link(mm + '/.Trash-%d' % uid, '.alt-missing')
     loc = c['loc']
     if loc == 'home':
         W.file('/home/u/w/f', 'F\n')
